@@ -223,7 +223,7 @@ def _rows(p, ctx, as_int):
     o = _mk(kind, seq, ctx.symbolic, as_int=as_int)
     init = datetime.datetime(2024, 2, 28, 23, 58, 0, p.get("us", 0))
     u = p["u"]  # concrete per cube (minutes; seconds when "unit_s" is set)
-    unit = datetime.timedelta(seconds=u) if p.get("unit_s") else datetime.timedelta(minutes=u)
+    unit = datetime.timedelta(milliseconds=u) if p.get("unit_ms") else (datetime.timedelta(seconds=u) if p.get("unit_s") else datetime.timedelta(minutes=u))
     m = p["q"] / 2
     if kind == "worker":
         owner = BaseTeam("tm", ID="tm", worker_list=[o])
@@ -256,7 +256,7 @@ def _rows(p, ctx, as_int):
             # independent integer arithmetic in half-minutes
             s_half = 2 * a * u
             f_half = (2 * a + 2 * b + qi) * u
-            half_unit_us = 500000 if p.get("unit_s") else 30000000
+            half_unit_us = 500 if p.get("unit_ms") else (500000 if p.get("unit_s") else 30000000)
             es = (init + datetime.timedelta(microseconds=half_unit_us * s_half)).strftime("%Y-%m-%d %H:%M:%S")
             ef = (init + datetime.timedelta(microseconds=half_unit_us * f_half)).strftime("%Y-%m-%d %H:%M:%S")
             if row["State"] != state or row["Start"] != es or row["Finish"] != ef:
@@ -361,6 +361,14 @@ def obligations(tier, seed):
             obs.append({"name": "rows-container/%s/unit=%ds/q=%d/us=%d" % (kind, u, q, us), "harness": "rows",
                         "cube": {"kind": kind, "n": 3, "u": u, "q": q, "us": us, "unit_s": True, "via_container": True},
                         "params": [["s%d" % i, lo, hi] for i in range(3)], "timeout": 150 if not thorough else 600})
+    # unit lengths with a sub-second part, every kind, directly and through the container
+    for kind, (lo, hi) in KINDS.items():
+        for (u, q, via) in ((1500, 1, False), (250, 3, False), (1500, 0, True)):
+            if via and kind not in ("task", "component"):
+                continue
+            obs.append({"name": "rows-ms/%s/unit=%dms/q=%d/via=%d" % (kind, u, q, via), "harness": "rows",
+                        "cube": {"kind": kind, "n": 4, "u": u, "q": q, "us": 0, "unit_ms": True, "via_container": via},
+                        "params": [["s%d" % i, lo, hi] for i in range(4)], "timeout": 150 if not thorough else 600})
     for use_arg in (0, 1):
         for setinit in (0, 1):
             obs.append({
